@@ -86,6 +86,8 @@ pub struct World {
     /// items handed over in the whole case (a burst profile falls back to the ordinary per-poll cap
     /// after 450 items, so that one case does not dominate the run)
     pub items_total: usize,
+    /// streams that have answered End: like real (fused) streams they answer End ever after
+    pub ended: std::collections::HashSet<Src>,
     /// replay: recorded answers per (source, operation)
     pub scripted: Option<HashMap<(Src, &'static str), VecDeque<Ans>>>,
     pub next_item: u64,
@@ -110,6 +112,7 @@ impl World {
             calls_in_poll: 0,
             items_in_poll: 0,
             items_total: 0,
+            ended: std::collections::HashSet::new(),
             scripted: None,
             next_item: 0,
             aux: 0,
@@ -165,7 +168,13 @@ impl World {
         if let Some(a) = self.scripted_answer(src, "next") {
             return a;
         }
+        if self.ended.contains(&src) {
+            return Ans::End;
+        }
         if self.drain {
+            if self.end_streams {
+                self.ended.insert(src);
+            }
             return if self.end_streams { Ans::End } else { Ans::Pending };
         }
         let p = self.profile;
@@ -182,6 +191,7 @@ impl World {
         } else if x < p.stream_item + p.stream_pending + p.stream_err {
             Ans::Err
         } else {
+            self.ended.insert(src);
             Ans::End
         }
     }
